@@ -12,7 +12,7 @@ LIFE = ["life/main.cpp", "life/c14.cpp", "life/c16.cpp", "life/interp.cpp", "lif
 PROPS = {
     "C01": dict(
         harness="h_algebra", sources=ALG, level="exploration",
-        variants=dict(quick=[V("asan", 6, 0.5), V("opt", 4)], thorough=[V("asan", 8, 0.5), V("opt", 6), V("optavx", 2)]),
+        variants=dict(quick=[V("asan", 6, 1.5), V("opt", 4, 3.0)], thorough=[V("asan", 8, 0.5), V("opt", 6), V("optavx", 2)]),
         rule="exhaustive part: every unit generator -> matrix and every matrix unit -> vector for d=2..6 (each slot of the ten generated "
              "basis-change kernels); random part: component vectors / Hermitian matrices drawn from 11 value classes (dense, sparse, single generator, "
              "diagonal, projector combinations, identity multiples, repeated spectra, 1e75..1e150, 1e-150..1e-75, integers, zero), d cycling 2..6. "
@@ -32,7 +32,7 @@ PROPS = {
     ),
     "C02": dict(
         harness="h_algebra", sources=ALG, level="exploration",
-        variants=dict(quick=[V("asan", 6, 0.5), V("opt", 6)], thorough=[V("asan", 8, 0.5), V("opt", 6), V("optavx", 2)]),
+        variants=dict(quick=[V("asan", 6, 1.5), V("opt", 6, 3.0)], thorough=[V("asan", 8, 0.5), V("opt", 6), V("optavx", 2)]),
         rule="exhaustive part: all 2274 ordered generator pairs (d=2..6) for iCommutator, ACommutator and the scalar product, each also with a weighted "
              "generator against a dense partner; random part: pairs from the 11 value classes with magnitudes up to 1e+-70, plus antisymmetry/symmetry, "
              "bilinearity and Tr(A i[A,B])=0 monitors. distinct_nontrivial = distinct generator pairs + distinct random pairs whose operands are both non-trivial.",
@@ -41,7 +41,7 @@ PROPS = {
     ),
     "C03": dict(
         harness="h_algebra", sources=ALG, level="exploration",
-        variants=dict(quick=[V("asan", 6, 0.5), V("opt", 6)], thorough=[V("asan", 8, 0.5), V("opt", 6), V("optavx", 2)]),
+        variants=dict(quick=[V("asan", 6, 1.5), V("opt", 6, 3.0)], thorough=[V("asan", 8, 0.5), V("opt", 6), V("optavx", 2)]),
         rule="random (d, diagonal H class, A class, t class): H from 10 diagonal classes (dense, zero, identity-only, fully/partially/nearly degenerate, integer, "
              "1e3..1e8, 1e-12..1e-3, single diagonal generator), t in {0, +-1e-12..1e-6, O(1), +-1..100, +-1e5..1e7, +-1e11..1e13, small integers}; monitors: direct form vs "
              "diag-phase conjugation, t=0 identity, diagonal components bitwise fixed, two-step form on an exact-size heap table, second vector on the same table, scalar product, "
@@ -51,7 +51,7 @@ PROPS = {
     ),
     "C06": dict(
         harness="h_algebra", sources=ALG, level="exploration",
-        variants=dict(quick=[V("asan", 8, 0.5), V("opt", 6)], thorough=[V("asan", 8, 0.5), V("opt", 6), V("optavx", 2)]),
+        variants=dict(quick=[V("asan", 8, 1.5), V("opt", 6, 3.0)], thorough=[V("asan", 8, 0.5), V("opt", 6), V("optavx", 2)]),
         rule="exhaustive part: each of the 35 plane-rotation kernels x 12 special thetas x 12 special deltas (0, +-pi/2, +-pi, 2pi+x, -x, pi/4, 1e-9, 1, 3, 500.25) on a generator and a "
              "dense vector; Const: every index pair in 0..8 x 0..8; random part: angle/phase sets (all planes / single plane / real mixing) x value classes: mixing matrix vs ordered "
              "product, unitarity, RotateToB1/B0, Rotate(U)/UTransform(U)/UDaggerTransform(U) with the library's U and with Haar unitaries, invariants, both WeightedRotation overloads.",
@@ -61,7 +61,7 @@ PROPS = {
     ),
     "C11": dict(
         harness="h_algebra", sources=ALG, level="exploration",
-        variants=dict(quick=[V("asan", 8, 0.5), V("opt", 6)], thorough=[V("asan", 8, 0.5), V("opt", 6), V("optavx", 2)]),
+        variants=dict(quick=[V("asan", 8, 1.5), V("opt", 6, 3.0)], thorough=[V("asan", 8, 0.5), V("opt", 6), V("optavx", 2)]),
         rule="pair order learned per dimension from the plain table (must be a bijection onto level pairs); five monitors in rotation: threshold averaging (flags and entries), "
              "LowPassFilter, AvgRampFilter (factor 1 / ramp / 0, rejection of wide ramps), interval average (entry-wise vs exact average incl. omega=0, finiteness, Evolve(buffer) vs "
              "time average), averaged GetExpectationValue/GetExpectationValueD on a solver object. A quarter of the cases come from an exactly representable family (integer levels "
@@ -74,7 +74,7 @@ PROPS = {
     ),
     "C12": dict(
         harness="h_algebra", sources=ALG, level="exploration",
-        variants=dict(quick=[V("asan", 8, 0.5), V("opt", 6)], thorough=[V("asan", 8, 0.5), V("opt", 6), V("optavx", 2)]),
+        variants=dict(quick=[V("asan", 8, 1.5), V("opt", 6, 3.0)], thorough=[V("asan", 8, 0.5), V("opt", 6), V("optavx", 2)]),
         rule="exhaustive part: every single generator, every projector, every rank-k projector and the zero matrix for d=2..6, ordered and unordered; random part (half of it in "
              "d=3): value classes and ten structure modifiers (one vanishing off-diagonal entry, off-diagonal part scaled by 1e-2..1e-14, prescribed gaps 1e-2..1e-14, whole matrix "
              "scaled by 1e+-20..100, single/two generators, projectors, diagonal, identity multiples). Judged: finite, |MV-VL|<=1e-9|M|, |V^dag V-1|<=1e-9, ascending when requested, "
